@@ -3,7 +3,10 @@ applied to the on-chain contents, gives the final dictionary.  Written from the 
 independent of pytezos:
 
 * key hash (`script_expr`): base58check with prefix bytes 0d 2c 40 1b ('expr', 32-byte payload) of
-  blake2b-256 of PACK(key) = 0x05 ‖ Micheline binary of the key in optimized form;
+  blake2b-256 of 0x05 ‖ Micheline binary of the key in the LEGACY optimized form (Octez `Optimized_legacy`): right
+  combs of any length stay nested binary `Pair a (Pair b …)` — NOT the sequence form that PACK uses for combs of
+  >= 4 components.  Validated by the recorded hash of `pair int int int int` (1,1,1,1), `expruN32WETs…`
+  (tests/unit_tests/test_michelson/test_micheline.py): it is the hash of the nested form;
 * GET k = overlay[k] if k was written/removed locally, else chain[k];  MEM k = GET k is Some;
   UPDATE k (Some v) writes, UPDATE k None removes; GET_AND_UPDATE additionally returns the previous GET k;
 * lazy diff entry: {kind: big_map, id, diff: {action: alloc|update, updates: [{key, key_hash, value?}], …}};
@@ -36,8 +39,37 @@ def script_expr(packed: bytes) -> str:
     return b58check(EXPR_PREFIX + hashlib.blake2b(packed, digest_size=32).digest())
 
 
+SUPPORTED_LEAVES = ('int', 'nat', 'mutez', 'string', 'bytes', 'bool', 'unit')      # readable == optimized notation
+
+
+def legacy_optimized(t_key, k):
+    """Micheline of a key in the legacy optimized form: nested binary pairs whatever the comb length."""
+    kind = t_key[0]
+    if kind == 'pair':
+        return {'prim': 'Pair', 'args': [legacy_optimized(t_key[1], k[0]), legacy_optimized(t_key[2], k[1])]}
+    if kind == 'option':
+        return {'prim': 'None'} if k is None else {'prim': 'Some', 'args': [legacy_optimized(t_key[1], k[1])]}
+    if kind == 'or':
+        return {'prim': k[0], 'args': [legacy_optimized(t_key[1] if k[0] == 'Left' else t_key[2], k[1])]}
+    if kind not in SUPPORTED_LEAVES:
+        raise ValueError(f'key leaf {kind}: optimized notation not modelled by this oracle')
+    return R.data_to_micheline(t_key, k)
+
+
 def key_hash(t_key, k) -> str:
-    return script_expr(R.pack(t_key, k))
+    from specs.micheline_bin import enc
+    return script_expr(b'\x05' + enc(legacy_optimized(t_key, k)))
+
+
+RECORDED_COMB = (R.pair_t(('int',), ('int',), ('int',), ('int',)), (1, (1, (1, 1))), 'expruN32WETsB2Dx1AynDmMufVr1As9qdnjRxKQ82rk2qZ4uxuKVMK')
+
+
+def validate_comb_hash():
+    """the recorded key hash of the 4-comb (1,1,1,1) is the hash of the nested form (and not of the sequence form)"""
+    from specs.micheline_bin import enc
+    t, v, want = RECORDED_COMB
+    seq = script_expr(b'\x05' + enc([{'int': '1'}] * 4))
+    return key_hash(t, v) == want and seq != want
 
 
 def key_hash_of_micheline(expr) -> str:
